@@ -29,6 +29,7 @@ def run(tier, replay=None):
     fams.append(("operands with >= 2 operators inside, order-sensitive operands (sample of C12's)", gens.context_sessions((ed[:-144][seed % 6::6] + ed[-144:]) if tier == "quick" else ed, first_id=1300000,
                                                                                                                       ctx_filter={"top", "fntail", "assign", "arg", "ifcond", "elem"} if tier == "quick" else None), ("value",)))
     fams.append(props.cross_sample(tier, seed))
+    fams.append(props.c01_rebinding(tier, seed))
     vs = semcheck.run_families(ck, fams, nontrivial)
     semcheck.binding_selftest(ck, vs)
     # translation validation + instruction-level trace validation on a slice of the same sessions (CalcVM.tla)
@@ -38,7 +39,7 @@ def run(tier, replay=None):
     for desc, case, kind in viol:
         ck.violation(desc, case)
     ck.cov["rule"] = ("sessions = enumerated expression x embedding-context products plus seeded random typed sessions, the compiler's special-cased code shapes, and a stable sample of the "
-                      "session families of C02 C03 C04 C09 C10 C17 C19 (25 per property quick, 400 thorough); distinct by AST digest; "
+                      "session families of C02 C03 C04 C09 C10 C17 C19 (25 per property quick, 400 thorough), and code that runs again after the names it mentions were rebound; distinct by AST digest; "
                       "non-trivial = some statement uses >= 3 distinct node kinds and the session is specified (not Unspecified) to its end")
     ck.assumptions += ["CalcSem.tla as evaluated by TLC is the oracle", "CalcVM.tla is the intended machine for the real compiler's bytecode (translation validation) and for the real VM's instruction trace", "values outside the model (|int| >= 2^30, non-dyadic floats) are Unspecified and only checked for no-crash"]
     return ck.finish()
